@@ -392,6 +392,7 @@ type c15Cli struct {
 	eof     bool
 	autoAck bool
 	maxWait time.Duration // cap for the next waits (0: the general deadline)
+	paused  bool
 	closed  bool
 	client  *Client // broker-side object of this connection (in-package identity)
 }
@@ -402,8 +403,21 @@ func (c *c15Cli) write(p packets.ControlPacket) error {
 	return p.Write(c.conn)
 }
 
+// pause / resume: a paused client does not read from its socket (at most the packet in flight)
+func (c *c15Cli) pause(on bool) {
+	c.mu.Lock()
+	c.paused = on
+	c.cond.Broadcast()
+	c.mu.Unlock()
+}
+
 func (c *c15Cli) reader() {
 	for {
+		c.mu.Lock()
+		for c.paused {
+			c.cond.Wait()
+		}
+		c.mu.Unlock()
 		p, err := packets.ReadPacket(c.conn)
 		c.mu.Lock()
 		if err != nil {
